@@ -675,7 +675,13 @@ class Composite(LexicalParent[Node], HasCreator, Node, ABC):
             state[label] for label in state.pop("_starting_node_labels")
         ]
 
+        cached_inputs = state.get("_cached_inputs")
+
         super().__setstate__(state)
+
+        # Taking the children back goes through `add_child`, which forgets the cache as
+        # after any change of the graph -- but restoring a state is no such change
+        self._cached_inputs = cached_inputs
 
         # Nodes don't store connection information, so restore it to them
         self._restore_data_connections_from_strings(child_data_connections)
